@@ -130,7 +130,7 @@ def check(ctx, run):
     run.rule("R4", "bounded copies folded over the (buffer size, string size) lattice: copyToBuffer writes [0, min(size, bufferSize-1)] and terminates there; copyToNewBuffer is always called with a size >= 1; subString truncates inside its own string", floor=20)
     run.rule("R5", "C-string primitives folded on every small string (bytes behind the terminator are absent, so a read past NUL cannot be folded and is reported): StrCmp, StrNCmp, StrLen, StrStr, StrNCpy, AtoI, AtoU, MemCmp, findFrom agree with their textbook definition on the bounded domain and read/write inside the buffers only", floor=9, exhaustive=True)
     run.rule("R6", "VStringFromFormat folded per vsnprintf result (0, 1, extent-1, extent, extent+1, 4*extent, INT_MAX): below the stack buffer's extent only that buffer is used, bounded by its extent; otherwise result+1 bytes are allocated, formatted into with that bound, and released with that size", floor=3)
-    run.rule("R7", "character classifiers folded for all 256 char values against their tables", floor=6, exhaustive=True)
+    run.rule("R7", "character classifiers folded for all 256 char values against their tables", floor=4, exhaustive=True)
 
     # ---------------- R1 ----------------------------------------------------
     FAMILY = {SS + "::deallocateInternalBuffer", SS + "::setInternalBufferAsEmptyString", SS + "::copyBufferToNewInternalBuffer", SS + "::setInternalBufferToNewBuffer", SS + "::setInternalBufferTo", SS + "::" + SS}
